@@ -4,6 +4,7 @@ import (
 	"bytes"
 	"fmt"
 	"sort"
+	"strconv"
 	"strings"
 	"testing"
 
@@ -29,6 +30,42 @@ func canonOutcome(o wire.Outcome) string {
 // l1SubsetOfL2 checks that every live L1 entry is live in L2 with equal value and flags.
 func l1SubsetOfL2(st *stack.Stack) string {
 	l1, l2 := st.L1.Live(), st.L2.Live()
+	if st.Cfg.L1 == "chunked" {
+		// a key is "present in L1" when its metadata and all chunks named by it
+		// are there with the metadata's token, i.e. when L1 can serve it
+		for bk, me := range l1 {
+			if !strings.HasSuffix(bk, "-meta") {
+				continue
+			}
+			k := strings.TrimSuffix(bk, "-meta")
+			md, ok := parseMeta(me.Value)
+			if !ok {
+				return fmt.Sprintf("L1 metadata of %q malformed", k)
+			}
+			var val []byte
+			servable := true
+			for i := 0; i < int(md.NumChunks); i++ {
+				ce, ok := l1[k+"-"+strconv.Itoa(i)]
+				if !ok || len(ce.Value) < tokenLen || !bytes.Equal(ce.Value[:tokenLen], md.Token) {
+					servable = false
+					break
+				}
+				val = append(val, ce.Value[tokenLen:]...)
+			}
+			if !servable || len(val) < int(md.Length) {
+				continue
+			}
+			val = val[:md.Length]
+			o, ok := l2[k]
+			if !ok {
+				return fmt.Sprintf("L1 can serve %q (%s, flags %d) which L2 does not hold", k, short(val), md.Flags)
+			}
+			if !bytes.Equal(val, o.Value) || md.Flags != o.Flags {
+				return fmt.Sprintf("L1 serves %q = (%s, flags %d) but L2 = (%s, flags %d)", k, short(val), md.Flags, short(o.Value), o.Flags)
+			}
+		}
+		return ""
+	}
 	for k, e := range l1 {
 		o, ok := l2[k]
 		if !ok {
@@ -57,9 +94,12 @@ func TestC02(t *testing.T) {
 	}
 	rapid.Check(t, func(t *rapid.T) {
 		lock := rapid.SampledFrom([]string{"nolock", "lock1r", "lockNr"}).Draw(t, "lock")
-		cfg := stack.Config{Shape: "l1l2+batch", Lock: lock, L1: "std", L2: "std"}
+		cfg := stack.Config{Shape: "l1l2+batch", Lock: lock, L1: rapid.SampledFrom([]string{"std", "std", "chunked"}).Draw(t, "l1"), L2: "std"}
 		if lock != "nolock" {
 			cfg.Conc = rapid.SampledFrom([]uint8{0, 3}).Draw(t, "conc")
+			if cfg.L1 == "chunked" {
+				cfg.Lock = "lock1r"
+			}
 		}
 		binary := rapid.Bool().Draw(t, "binary")
 		st := stack.Get(cfg)
@@ -74,7 +114,20 @@ func TestC02(t *testing.T) {
 				mask := rapid.IntRange(1, 15).Draw(t, "evictMask")
 				for b, k := range smallKeys {
 					if mask&(1<<b) != 0 {
-						evict[i] = append(evict[i], k)
+						if cfg.L1 != "chunked" {
+							evict[i] = append(evict[i], k)
+							continue
+						}
+						// chunked L1: any subset of the key's backend entries
+						sub := rapid.IntRange(1, 63).Draw(t, "evictEntries")
+						if sub&1 != 0 {
+							evict[i] = append(evict[i], k+"-meta")
+						}
+						for c := 0; c < 5; c++ {
+							if sub&(2<<uint(c)) != 0 {
+								evict[i] = append(evict[i], k+"-"+strconv.Itoa(c))
+							}
+						}
 					}
 				}
 			}
@@ -99,7 +152,11 @@ func TestC02(t *testing.T) {
 					before := st.L1.Live()
 					for _, k := range evict[i] {
 						if _, ok := before[k]; ok {
-							evKeys[k] = true
+							ck := k
+							if cfg.L1 == "chunked" {
+								ck = k[:strings.LastIndex(k, "-")]
+							}
+							evKeys[ck] = true
 							evicted++
 						}
 					}
